@@ -45,8 +45,8 @@ CLAIMED = {
    note="Trusted: Coq kernel; model receives the implementation-parsed records (parser tie is C03); CLI path (main.rs re-implements the loop) covered by C16 when built."),
  "C11": dict(
    text="Coq theorems C11_guard (executed <=> every guard admits labels+engine name), C11_any_guard_skips, C11_skipped_*_is_silent (no request, no command, no output, "
-        "world counters unchanged), C11_skipped_cannot_fail, C11_admitted_statement_runs. Correspondence: all guard lists of <=2 guards (quick) / <=3 (thorough) over 4 labels x all 16 label sets x "
-        "3 record kinds x 3 positions, engine name set, with a direct evaluation of the property on the implementation (guarded ran?, neighbours ran once?).",
+        "world counters unchanged), C11_skipped_cannot_fail, C11_admitted_statement_runs, C11_admitted_system_runs_once (hook call or, for `cmd &`, exactly one background spawn). Correspondence: all guard lists of <=2 guards (quick) / <=3 (thorough) over 4 labels x all 16 label sets x "
+        "3 record kinds x 3 positions, engine name set, plus guarded background commands observed through the marker files they create, with a direct evaluation of the property on the implementation (guarded ran?, neighbours ran once?).",
    ref="4/C11", technique="Coq proof + exhaustive differential correspondence",
    note="Trusted: Coq kernel; connection established before guards are evaluated (stated premise); that guards attach to the next record only is checked on the implementation directly and by the parser property C03."),
  "C12": dict(
